@@ -453,6 +453,49 @@ theorem C01_retransmission_is_redelivery (env : Env) (hcomp : ∀ b, env.compres
     ∀ q ∈ emitted ((Sys.run env sub s ops).a.fireOne env now (.resend p k)), q = p ∧ q ∈ (Sys.run env sub s ops).net :=
   resend_is_redelivery env sub _ now p k (sys_refines env hcomp hdec sub ci size hsz start ops s ch h0 hok).1.tim hp hr
 
+open Nx.L1 Nx.Prudp in
+/-- **what a handshake has to establish.** `Established sub start a b` lists observable facts about two connection objects
+    (the sender's counter of the substream is `start`, its cipher at position 0; the receiver's window expects `start` and is
+    empty, queue and fragment buffer empty, same key, position 0, live; no retransmission of the channel pending). They suffice:
+    the two endpoints and the initial channel `Chan.init start` are coupled, and every end-to-end theorem applies from there on. -/
+theorem C01_system_established (sub start : Nat) (a b : Conn) (h : Established sub start a b) :
+    Good sub (cipherOf a sub) a.fragmentSize start (Sys.fresh a b) (Chan.init start) := good_of_established sub start a b h
+
+/-! non-vacuity, and the link to the handshake: the WHOLE modelled handshake — `handshake()` → SYN → `PRUDPServerStream.handle`
+    → SYN/ACK → `handle` → CONNECT → `handle` (the server creates, logs in and serves its connection object) → CONNECT/ACK →
+    `handle` → the parked `handshake()` resumes — leaves the two connection objects `Established` in both directions on both
+    substreams: client→server starts at id 2 on substream 0 (the CONNECT took id 1; the server's window was skipped past it),
+    server→client and substream 1 at id 1. (Evaluated by the kernel on a concrete configuration; for all configurations it is
+    what the byte- and tick-exact L1 replays of real handshakes tie to the code.) -/
+open Nx.L1 Nx.Prudp in
+def handshakeRun (env : Env) (cAddr sAddr : Addr) : Option (Conn × Conn) :=
+  let c0 := Conn.new env (some 1) 1 2 3 cAddr 15 10 sAddr 1 10
+  let r1 := c0.handshake env 0 none
+  let em (outs : List SOut) : List Packet := outs.filterMap (fun o => match o with | .emit _ p _ => some p | _ => none)
+  match emitted r1 with
+  | [syn] =>
+    let s0 : ServerStream := { key := none, supFuncs := 0, maxSub := 1, minorVer := 0, addr := sAddr, port := 1, type := 10 }
+    let sr1 := s0.handle env 1 {} true syn cAddr
+    match em sr1.outs with
+    | [synAck] =>
+      let r2 := r1.c.handle env 2 synAck
+      match emitted r2 with
+      | [con] =>
+        let sr2 := sr1.s.handle env 3 { localSessionId := 9 } true con cAddr
+        match em sr2.outs, clientLookup (cAddr, 15, 10) sr2.s.clients with
+        | [conAck], some cS => some ((r2.c.handle env 4 conAck).c.resumeHandshake 4 |>.c, cS)
+        | _, _ => none
+      | _ => none
+    | _ => none
+  | _ => none
+
+open Nx.L1 Nx.Prudp in
+example :
+    let env : Env := { C04.toyEnv with s := { fragmentSize := 2, transport := TRANSPORT_TCP, maxSubstreamId := 1 } }
+    (handshakeRun env ("10.0.0.2", 1) ("10.0.0.1", 2)).map (fun (c, s) =>
+      (c.state, s.state, establishedB 0 2 c s, establishedB 0 1 s c, establishedB 1 1 c s, establishedB 1 1 s c)) =
+      some (STATE_CONNECTED, STATE_CONNECTED, true, true, true, true) := by decide +kernel
+
 /-! non-vacuity of the retransmission theorems: with a scheduler (as after `handshake`), a `send` arms one timer per fragment,
     the timers hold exactly what was handed to the transport, and a fired one hands the same packet over again -/
 open Nx.L1 Nx.Prudp in
